@@ -389,7 +389,15 @@ class Check:
         outs = {}
         for prof, exe in exes.items():
             outs[prof] = run_lines(exe, lines)
-        mouts = run_lines(model, lines, ulimit_stack=True) if model else None
+        if model:
+            # cases marked impl_only are decided by the oracle on the implementation; the model is not run on them
+            idx = [i for i, c in enumerate(cases) if not (isinstance(c[1], dict) and c[1].get("impl_only"))]
+            res = run_lines(model, [lines[i] for i in idx], ulimit_stack=True) if idx else []
+            mouts = [None] * len(lines)
+            for i, r_ in zip(idx, res):
+                mouts[i] = r_
+        else:
+            mouts = None
         seen = set()
         nviol = 0
         known = [(k, txt) for (p, k, txt) in known_findings() if p == pid]
@@ -426,7 +434,7 @@ class Check:
                 seen.add(h)
         cov["distinct_nontrivial"] = len(seen)
         cov["programs"] = len(lines)
-        cov["disagreements_checked"] = len(lines) if mouts is not None else 0
+        cov["disagreements_checked"] = sum(1 for m_ in mouts if m_ is not None) if mouts is not None else 0
         cov["samples"] = [dict(request=lines[i][:300], impl=(outs[self.profiles[0]][i] or "")[:300],
                                model=(mouts[i] or "")[:300] if mouts else None)
                           for i in self.sample_indices(len(lines))]
